@@ -413,7 +413,9 @@ pub fn run_with(cli: Cli, extra: &dyn Fn(&Report)) -> ! {
     let jobs_ref = &jobs;
     let (rep_ref, st_ref) = (&rep, &st);
     // window lengths: whole seconds, fractional seconds, sub-second (one level shallower for the extra ones)
-    let windows: Vec<(u64, usize)> = vec![(8_000, depth), (1_500, depth - 1), (400, depth - 1)];
+    // (and windows of two hours and of one day: whatever the limiter does "at least once per hour" or "after 30
+    // minutes" regardless of the configured window shows there)
+    let windows: Vec<(u64, usize)> = vec![(8_000, depth), (1_500, depth - 1), (400, depth - 1), (7_200_000, depth - 2), (86_400_000, depth - 1)];
     for (window_ms, depth) in windows.iter().copied() {
         par_for(jobs.len() * limits.len(), |ji| {
             D.with(|d| d.set(window_ms));
@@ -547,7 +549,7 @@ pub fn run_with(cli: Cli, extra: &dyn Fn(&Report)) -> ! {
     rep.set("deletion_reruns", json!(st.deletions.load(Ordering::Relaxed)));
     rep.set("exhaustive", json!(true));
     rep.set("rule", json!(format!(
-        "every history of exactly {depth} events over attempt(A|B|C) and advance(d/4,d/2,d-1ms,d,d+1ms,2d-1ms,2d,4d), no two consecutive advances, for limit in 1..3 and window length d = 8 s (and d = 1.5 s, 0.4 s one level shallower); every shorter history is a prefix; the same enumeration two levels shallower on a limiter whose uptime crosses 2^31 ms and 2^32 ms during the history; every history of one address of 4 (thorough 5) events with 20000 addresses never seen before attempting once each at every position. A state is the history reaching it (fresh RateLimiter replayed under the paused clock). distinct_nontrivial = distinct (limit, decision vector) pairs observed.")));
+        "every history of exactly {depth} events over attempt(A|B|C) and advance(d/4,d/2,d-1ms,d,d+1ms,2d-1ms,2d,4d), no two consecutive advances, for limit in 1..3 and window length d = 8 s (and d = 1.5 s, 0.4 s, one day one level shallower, two hours two levels shallower); every shorter history is a prefix; the same enumeration two levels shallower on a limiter whose uptime crosses 2^31 ms and 2^32 ms during the history; every history of one address of 4 (thorough 5) events with 20000 addresses never seen before attempting once each at every position. A state is the history reaching it (fresh RateLimiter replayed under the paused clock). distinct_nontrivial = distinct (limit, decision vector) pairs observed.")));
     rep.sample(json!({"history": ev_json(&[Ev::Att(0), Ev::Att(0), Ev::Adv(2), Ev::Att(1), Ev::Att(0), Ev::Adv(6), Ev::Att(0)]), "limit": 1}));
     rep.sample(json!({"history": ev_json(&jobs[0]), "limit": 2}));
     rep.assume("time is tokio's paused clock; inter-arrival times are the stated alphabet (real-valued time in between is represented by the +-1 ms neighbours of d and 2d)");
